@@ -130,26 +130,31 @@ def If(cond, true_value, false_value):
         else:
             raise ClaripyTypeError(f"can't convert {type(args[2])} to {ty}")
 
+    # every shortcut drops some argument; like the simplifiers of all other operations, the shortcut is only taken
+    # if no non-eliminatable annotation is lost, and relocatable annotations are moved to the result
+    simp = None
     if is_true(args[0]):
-        return args[1].append_annotations(args[0].annotations)
-    if is_false(args[0]):
-        return args[2].append_annotations(args[0].annotations)
-
-    if isinstance(args[1], Base) and args[1].op == "If" and args[1].args[0] is args[0]:
-        return If(args[0], args[1].args[1], args[2])
-    if isinstance(args[1], Base) and args[1].op == "If" and args[1].args[0] is Not(args[0]):
-        return If(args[0], args[1].args[2], args[2])
-    if isinstance(args[2], Base) and args[2].op == "If" and args[2].args[0] is args[0]:
-        return If(args[0], args[1], args[2].args[2])
-    if isinstance(args[2], Base) and args[2].op == "If" and args[2].args[0] is Not(args[0]):
-        return If(args[0], args[1], args[2].args[1])
-
-    if args[1] is args[2]:
-        return args[1]
-    if args[1] is true() and args[2] is false():
-        return args[0]
-    if args[1] is false() and args[2] is true():
-        return ~args[0]
+        simp = args[1]
+    elif is_false(args[0]):
+        simp = args[2]
+    elif isinstance(args[1], Base) and args[1].op == "If" and args[1].args[0] is args[0]:
+        simp = If(args[0], args[1].args[1], args[2])
+    elif isinstance(args[1], Base) and args[1].op == "If" and args[1].args[0] is Not(args[0]):
+        simp = If(args[0], args[1].args[2], args[2])
+    elif isinstance(args[2], Base) and args[2].op == "If" and args[2].args[0] is args[0]:
+        simp = If(args[0], args[1], args[2].args[2])
+    elif isinstance(args[2], Base) and args[2].op == "If" and args[2].args[0] is Not(args[0]):
+        simp = If(args[0], args[1], args[2].args[1])
+    elif args[1] is args[2]:
+        simp = args[1]
+    elif args[1] is true() and args[2] is false():
+        simp = args[0]
+    elif args[1] is false() and args[2] is true():
+        simp = ~args[0]
+    if simp is not None:
+        simp = operations._handle_annotations(simp, tuple(args))
+        if simp is not None:
+            return simp
 
     if issubclass(ty, Bits):
         return ty("If", tuple(args), length=args[1].length)
